@@ -32,9 +32,12 @@ EvalFileCopy    == /\ ~done /\ fam = "file" /\ C.k = "copy" /\ done' = TRUE /\ U
 EvalFileRoomy   == /\ ~done /\ fam = "file" /\ C.k = "roomy" /\ done' = TRUE /\ UNCHANGED <<fam, x>>
                    /\ Assert(C.size >= Len(C.pre) + Len(C.src) + 1, <<"not a roomy size", Row>>)
                    /\ Obs("roomy", <<Row>>, RoomyCopy(C.src, C.pre), TRUE)
+\*   {"k":"alias","s":[..],"off":k,"size":n}   safe_strncpy(buf, buf + k, n) on the buffer that holds s (sizes of the sweep families)
+EvalFileAlias   == /\ ~done /\ fam = "file" /\ C.k = "alias" /\ done' = TRUE /\ UNCHANGED <<fam, x>>
+                   /\ LET m == AliasMem(C.s, C.size) IN Obs("alias", <<Row, m>>, AliasedStrncpy(m, C.off, C.size), TRUE)
 EvalFileSubstr  == /\ ~done /\ fam = "file" /\ C.k = "substr" /\ done' = TRUE /\ UNCHANGED <<fam, x>>
                    /\ Obs("substr", <<Row>>, Substr(C.s, C.idx, C.cnt), TRUE)
-FileNext == EvalFileInPlace \/ EvalFileCopy \/ EvalFileRoomy \/ EvalFileSubstr
+FileNext == EvalFileInPlace \/ EvalFileCopy \/ EvalFileRoomy \/ EvalFileAlias \/ EvalFileSubstr
 FileSpec == FileInit /\ [][FileNext]_vars
 
 \* the laws of StrHelpers on the file tuples (texts up to 40 bytes: the quadratic law formulas; copies and slices of any size)
@@ -42,5 +45,6 @@ FileLaws == (fam = "file" /\ ~done) =>
                /\ (C.k = "inplace" /\ Len(C.s) <= 40) => InPlaceLawsOf(C.s)
                /\ (C.k = "copy") => CopyLawsOf(C.size, C.src, C.pre)
                /\ (C.k = "substr") => SubstrLawsOf(C.s, C.idx, C.cnt)
+               /\ (C.k = "alias") => AliasLawsOf(C.s, C.off, C.size)
 ObsEmitFile(op, args, ret, post) == PrintT(ToJson([op |-> op, args |-> args, exp |-> ret, lv |-> DebugLevels]))
 ================================================================================
